@@ -17,6 +17,7 @@ import (
 	"github.com/absfs/absnfs"
 	"pgregory.net/rapid"
 
+	"verif/harness/drv"
 	"verif/harness/nfsx"
 	"verif/harness/stat"
 	"verif/harness/vfs"
@@ -367,9 +368,19 @@ func runFH(tb stat.TB, c fhCase, id, check string) {
 			switch op.Kind {
 			case "mnt":
 				pre = liveNow()
-					root = s.mount()
+				root = s.mount()
 				if got(i, "MNT", "/", root, pre) {
 					return
+				}
+				// MNT of a directory under any spelling of its path names the same object: one handle per path
+				sp := []string{"/d%d", "/d%d/", "//d%d", "/d%d/.", "/./d%d", "/d%d/../d%d", "/d%d//"}[op.K%7]
+				mp := strings.ReplaceAll(sp, "%d", fmt.Sprint(op.Dir))
+				pre = liveNow()
+				if mfh, st, err := s.e.Mount(drv.Root(), mp); err == nil && st == 0 {
+					labels["mnt_directory_spelling"] = true
+					if got(i, "MNT "+mp, dpath, mfh, pre) {
+						return
+					}
 				}
 			case "lookup":
 				if !ensureDir() {
